@@ -33,6 +33,9 @@ def std_db(I):
     symseq.install(I.P)
     db, R = make_db(I)
     install_additional_conversions(I)
+    from pyvc import loops
+
+    loops.install(I.P)
     return db, R
 
 
